@@ -74,8 +74,7 @@ class Ctx:
 
     # -- traces ---------------------------------------------------------
     def trace(self, clsname, method, assume=None, nonnull=(), record_loads=True):
-        key = (clsname, method, tuple(sorted((assume or {}).items(), key=lambda kv: kv[0])) if assume else (), tuple(sorted(nonnull)))
-        key = (key[0], key[1], repr(key[2]), key[3])
+        key = (clsname, method, repr(sorted((assume or {}).items(), key=lambda kv: kv[0])), repr(sorted(nonnull, key=repr)))
         if key not in self._traces:
             ci = self.prog.cls(clsname)
             fi = self.prog.lookup(ci, method)
